@@ -151,7 +151,7 @@ fn cmd_run(args: &[String], reg: &[ScenarioDef]) -> i32 {
         steps += ctx.steps;
         shapes.insert(ctx.shape);
         if want_digests {
-            digests.push(ctx.digest);
+            digests.push(if ctx.order_dependent { 0x6f72_6465_725f_6470 ^ case as u64 } else { ctx.digest });
         }
         for (k, v) in ctx.faults.iter() {
             *faults.entry(k.to_string()).or_insert(0) += v;
